@@ -455,9 +455,30 @@ func ruleK3(c *Ctx) *RuleResult {
 				key := fmt.Sprintf("%s|do#%d", FuncName(fn), ch)
 				req := call.Call.Args[1]
 				okReq := false
-				if ex, ok := req.(*ssa.Extract); ok && ex.Index == 0 {
-					if mk, ok := ex.Tuple.(*ssa.Call); ok && isFuncNamed(mk.Call.StaticCallee(), "net/http", "NewRequestWithContext") {
-						okReq = true
+				fromNew := func(v ssa.Value) bool {
+					if ex, ok := canon(v).(*ssa.Extract); ok && ex.Index == 0 {
+						if mk, ok := ex.Tuple.(*ssa.Call); ok && isFuncNamed(mk.Call.StaticCallee(), "net/http", "NewRequestWithContext") {
+							return true
+						}
+					}
+					return false
+				}
+				if fromNew(req) {
+					okReq = true
+				} else if p, isParam := req.(*ssa.Parameter); isParam {
+					// a helper that sends the request it is given: every call site hands it a NewRequestWithContext result
+					pi := -1
+					for i, q := range fn.Params {
+						if q == p {
+							pi = i
+						}
+					}
+					edges := c.callersOf(fn)
+					okReq = pi >= 0 && len(edges) > 0
+					for _, e := range edges {
+						if e.Site == nil || pi >= len(e.Site.Common().Args) || !fromNew(e.Site.Common().Args[pi]) {
+							okReq = false
+						}
 					}
 				}
 				if okReq {
@@ -691,6 +712,36 @@ func ruleK4(c *Ctx) *RuleResult {
 	if runInner == nil {
 		return r
 	}
+	// closesBeforeReturning: every return of g follows rp.close() (directly, or returns the result of such a function)
+	var closesBeforeReturning func(g *ssa.Function, depth int) bool
+	closesBeforeReturning = func(g *ssa.Function, depth int) bool {
+		if g == nil || g.Blocks == nil || depth > 3 {
+			return false
+		}
+		okAll, any := true, false
+		allInstrs(g, func(in ssa.Instruction) {
+			ret, ok := in.(*ssa.Return)
+			if !ok {
+				return
+			}
+			any = true
+			dom := false
+			allInstrs(g, func(x ssa.Instruction) {
+				if call, ok := x.(*ssa.Call); ok && call.Call.StaticCallee() == poolClose && instrDominates(x, ret) {
+					dom = true
+				}
+			})
+			if !dom && len(ret.Results) > 0 {
+				if call, ok := retVal(ret, len(ret.Results)-1).(*ssa.Call); ok && InRootPkg(call.Call.StaticCallee()) && closesBeforeReturning(call.Call.StaticCallee(), depth+1) {
+					dom = true
+				}
+			}
+			if !dom {
+				okAll = false
+			}
+		})
+		return okAll && any
+	}
 	allInstrs(runInner, func(in ssa.Instruction) {
 		ret, ok := in.(*ssa.Return)
 		if !ok {
@@ -704,6 +755,11 @@ func ruleK4(c *Ctx) *RuleResult {
 				dominated = true
 			}
 		})
+		if !dominated && len(ret.Results) > 0 {
+			if call, ok := retVal(ret, len(ret.Results)-1).(*ssa.Call); ok && InRootPkg(call.Call.StaticCallee()) && closesBeforeReturning(call.Call.StaticCallee(), 0) {
+				dominated = true
+			}
+		}
 		if dominated {
 			r.ok(key, c.Pos(posOf(ret)), FuncName(runInner), "runInner joins the pool (rp.close()) before every return", "a call of clientRoutinePool.close dominates this return")
 		} else {
